@@ -1,12 +1,44 @@
+"""C06 -- callbacks are honoured exactly, merged when simultaneous, never invented.
+Whole simulations against Model/Sim.v with the callback oracles (65 honoured, 66 not invented, 67 every update has a
+cause); in addition the step-exhaustive interrupt injection sweep of C07 (an interrupt of every device at every
+event-loop step of a window, also in the middle of master and nested ticks) is judged by the callback oracle alone:
+whatever the interrupt does, every callback a device asked for is still served -- up to the end of the run."""
+import slevel
 import sprops
+from common import run_shards
+from props import c07
 
 PID = "C06"
+
+
+def injection_part(ck, tier, rng):
+    icases, _ = c07.s_part(ck, tier, rng)
+    iterms = [slevel.render_sim_case(c["cfg"], c["devs"], (1, 1), 0, [], 1_300_000_003, c["run"]) for c in icases]
+    ibad = run_shards(PID + "_i", sprops.HEADER, "sim_case", "oracle_c06", iterms, shard_size=60)
+    ck.coverage["injection_sweep_runs_judged_by_the_callback_oracle"] = len(icases)
+    for i in sorted(ibad):
+        c = icases[i]
+        ck.report(sprops.REASONS[65], f"interrupt of device c{c['device']} injected at loop step {c['step']} ({c['name']}): a callback "
+                  "requested by a device is not served afterwards",
+                  dict(kind="injection", cfg={str(k): v for k, v in c["cfg"].items()}, devs={str(k): v for k, v in c["devs"].items()},
+                       device=c["device"], step=c["step"], inj=c["inj"], ticklog=c["run"]["ticklog"][-12:], codes=ibad[i],
+                       observed={str(k): [t for t, _ in v] for k, v in c["run"]["per"].items()}))
+        break
 
 
 def main(tier, seed):
     return sprops.main_S(PID, tier, seed, {65, 66, 67}, "Props.C06",
                          ["Model/Sim.v", "Model/Master.v", "Oracle/SimCheck.v", "Oracle/SimOracle.v", "Proofs/MasterP.v", "Props/C06.v"],
-                         "callbacks", "callbacks")
+                         "callbacks", "callbacks", extra=injection_part)
 
 
-replay = sprops.replay_S
+def replay(rp):
+    if rp.get("kind") == "injection":
+        cfg = {int(k): dict(order=[(c, kk) for c, kk in v["order"]], conns=[tuple(x) for x in v["conns"]]) for k, v in rp["cfg"].items()}
+        devs = {int(k): tuple(v) for k, v in rp["devs"].items()}
+        r = slevel.run_internal(cfg, devs, (1, 1), 0, [], 1_300_000_003, inject=(rp["step"], rp["device"]))
+        bad = run_shards("replay", sprops.HEADER, "sim_case", "oracle_c06", [slevel.render_sim_case(cfg, devs, (1, 1), 0, [], 1_300_000_003, r)])
+        print("injection", rp["device"], "at step", rp["step"], "updates:", {k: [t for t, _ in v] for k, v in r["per"].items()})
+        print("codes:", bad.get(0, []))
+        return 1 if bad else 0
+    return sprops.replay_S(rp)
